@@ -12,10 +12,12 @@ parser/printer (C15's string-level theorems are used as proved) or marker parser
 same constraint comes back), `dep_roundtrip_registry_ne` (`!=V`: an equivalent constraint), and
 `dep_roundtrip_registry_marker` (markers of C13's full comparison-operator domain: the marker read back validates
 exactly as the original on every environment of the domain).
-`dep_roundtrip_url` does the same for URL dependencies without sub-directory (http/https URL in `urlsplit` normal form).
+`dep_roundtrip_url` does the same for URL dependencies without sub-directory (http/https URL in `urlsplit` normal form),
+`dep_roundtrip_vcs` for git dependencies whose location is in the normal form of the restricted git grammar (any scheme
+of the grammar, with and without user, port, reference and sub-directory), through the whole-URL inverse
+`giturl_inverse_full`.
 The full statement is `dep_roundtrip_full_statement`.  NOT proved of it: (1) URL dependencies with a sub-directory
-fragment, wheel URLs and the VCS kind beyond the recogniser (the whole-URL inverse of the git grammar,
-`giturl_inverse_full_statement`);
+fragment and wheel URLs; git locations outside the restricted grammar;
 (2) constraints the printer spells with a wildcard (`==X.*`, `!=X.*`) or as a disjunction; (3) dependencies that are
 members of an extra (`in_extras ≠ []`: the `extra == …` clause `to_pep_508` appends); (4) markers outside C13's domain
 (`in` / `not in`, `~=`, `platform_release`); (5) two side conditions on the printed text that are kept as hypotheses:
@@ -28,6 +30,7 @@ theorems.
 import PoetryVerif.Proofs.DepConstraint
 import PoetryVerif.Proofs.DepMarker
 import PoetryVerif.Proofs.DepUrl
+import PoetryVerif.Proofs.DepVcs
 import PoetryVerif.Proofs.VRangeTextP
 
 set_option linter.unusedSimpArgs false
@@ -93,11 +96,21 @@ theorem giturl_path_suffix_inverse (g : GitParts) (h : g.WF) :
     | none => exact Or.inl rfl
     | some d => right; rw [subdirKey_eq]; exact ⟨_, Or.inr rfl⟩
 
-/-- the whole-URL statement, checked on concrete URLs here and by the `giturl` correspondence stream in general -/
-def giturl_inverse_full_statement : Prop :=
-  ∀ g : GitParts, g.WF →
+/-- **whole-URL print / parse inverse of the git grammar**: the normal form
+`scheme://[user@]host[:port]/seg/…/seg[@rev][#subdirectory=dir]`, with or without the `git+` prefix, is parsed into
+exactly its components, and `ParsedUrl.url` of the result is the normal form without suffix (so the normal form is a
+fixed point of `_normalize_source_url`) — for every scheme of the grammar (git, ssh, rsync, file, http, https), with
+and without user, port, revision and sub-directory -/
+theorem giturl_inverse_full (g : GitParts) (h : g.WF) :
     parseGitUrlL ("git+".toList ++ g.text) = .ok g.parsed ∧ parseGitUrlL g.text = .ok g.parsed ∧
-    g.parsed.url = String.ofList g.normal
+    g.parsed.url = String.ofList g.normal :=
+  giturl_inverse g h
+
+/-- non-vacuity: `ssh://git@github.com:2222/org/repo.git@v1.0#subdirectory=pkg/core` -/
+example : (⟨"ssh", some "git".toList, "github.com".toList, some "2222".toList, ["org".toList, "repo.git".toList],
+    some "v1.0".toList, some "pkg/core".toList⟩ : GitParts).WF :=
+  { proto := by decide, user := ⟨by decide, by decide⟩, host := ⟨by decide, by decide⟩, port := ⟨by decide, by decide⟩,
+    segs := ⟨by decide, by decide⟩, rev := ⟨by decide, by decide⟩, subdir := ⟨by decide, by decide +kernel⟩ }
 
 example : parseGitUrl "git+ssh://git@github.com:2222/org/repo.git@v1.0#subdirectory=pkg/core" =
     .ok { protocol := some "ssh", resource := some "github.com", pathname := some "/org/repo.git", user := some "git",
@@ -436,6 +449,122 @@ example : ∃ u, UrlNF "https://example.com/a/foo-1.0.tar.gz" u :=
         nopct := by decide +kernel, notWheel := by decide +kernel, nosub := by decide +kernel,
         uri := ⟨⟨'h', _, rfl, by decide⟩, by decide⟩, noUnc := by decide,
         last := ⟨"https://example.com/a/foo-1.0.tar.g".toList, 'z', by decide, by decide⟩ }⟩
+
+/-! ## the round trip on VCS (git) dependencies -/
+
+/-- well-formedness of a git dependency as `VCSDependency(name, "git", source, branch, tag, rev, directory)` builds it
+from a source in the grammar's normal form: `g` are the parts of the location, its `rev` the one reference the text
+can carry (`branch or tag or rev`), its `subdir` the directory -/
+structure VcsWF (d : Dep) (g : GitParts) (b t r dir : Option String) : Prop where
+  kind : d.kind = .vcs "git" (String.ofList g.normal) b t r dir
+  name : d.spec.name = canonName d.spec.prettyName
+  ident : Ident d.spec.prettyName.toList
+  feats : normFeatures d.spec.features = d.spec.features
+  featIdent : ∀ f ∈ d.spec.features, Ident f.toList
+  inExtras : d.inExtras = []
+  href : pyOr (pyOr b t) r = g.rev.map String.ofList
+  hdir : dir = g.subdir.map String.ofList
+  stype : d.spec.sourceType = some "git"
+  surl : d.spec.sourceUrl = some (String.ofList g.normal)
+  ssub : d.spec.sourceSubdirectory = dir
+  sref : d.spec.sourceReference = pyOr (pyOr (pyOr b t) r) (some "HEAD")
+  sres : d.spec.sourceResolvedReference = none
+
+/-- **round trip of a git dependency** (location in the grammar's normal form, any of branch / tag / rev, optional
+sub-directory, no marker): `to_pep_508` prints `name[extras] @ git+<location>[@ref][#subdirectory=dir]`;
+`create_from_pep_508` reads it back (recogniser and git grammar proved) and dispatches to
+`VCSDependency(name, "git", location, rev=ref, directory=dir)`: same normalised name and extras, the kind with
+branch/tag/rev collapsed into the one reference (`Kind.textual`), the same source URL, reference and sub-directory -/
+theorem dep_roundtrip_vcs (d : Dep) (g : GitParts) (b t r dir : Option String) (u : SplitUrl) (h : VcsWF d g b t r dir)
+    (hg : g.WF) (hu : VcsUrlOK (String.ofList (vcsUrlText g)) u)
+    (hany : d.marker.isAny = true) (hpy : d.pythonVersions = "*")
+    (hnc : ∀ t, d.toPep508 = .ok t → NoComment t.toList) :
+    ∃ t d', d.toPep508 = .ok t ∧ createFromPep508 t = .ok d' ∧ d'.name = d.name ∧ d'.extras = d.extras ∧
+      d'.kind = Kind.textual d.kind ∧ sameSource d' d ∧ d'.marker = .any := by
+  -- the printed base
+  have hbare := (giturl_inverse g.bare (GitParts.bare_wf hg)).2.1
+  rw [GitParts.bare_text] at hbare
+  have hparse : parseGitUrl (String.ofList g.normal) = .ok g.bare.parsed := by
+    unfold parseGitUrl; rw [String.toList_ofList]; exact hbare
+  have hproto : g.bare.parsed.protocol.isSome = true := rfl
+  have hbase : ∃ s, d.basePep508Name = .ok s ∧
+      s.toList = d.spec.prettyName.toList ++ extrasText (d.spec.features.map String.toList) ++ urlText (some (vcsUrlText g)) := by
+    have href := h.href
+    have hdir := h.hdir
+    have hb0 : d.basePep508Name = .ok
+        ((d.spec.completePrettyName ++ (" @ " ++ "git" ++ "+" ++ String.ofList g.normal) ++
+            if (vcsReference b t r != "") = true then "@" ++ vcsReference b t r else "") ++
+          if truthy dir = true then "#subdirectory=" ++ dir.getD "" else "") := by
+      simp only [Dep.basePep508Name, h.kind, hparse, hproto, if_true, bind, Except.bind, pure, Except.pure]
+    refine ⟨_, hb0, ?_⟩
+    have hrv : ∀ x : List Char, x ≠ [] → ((String.ofList x != "") = true) := fun x hx => ofList_ne_empty x hx
+    have hk : ("#subdirectory=" : String).toList = subdirKey := rfl
+    cases hrev : g.rev with
+    | none =>
+      have hR : pyOr (pyOr b t) r = none := by rw [href, hrev]; rfl
+      have hvr : vcsReference b t r = "" := by unfold vcsReference; rw [hR]; rfl
+      cases hsd : g.subdir with
+      | none =>
+        have hD : dir = none := by rw [hdir, hsd]; rfl
+        simp [hvr, truthy, hD, Spec.completePrettyName, String.toList_append, featureSuffix_chars,
+          urlText, vcsUrlText, GitParts.text, suffixText, hrev, hsd]
+      | some sd =>
+        have hsdne : sd ≠ [] := by have := hg.subdir; rw [hsd] at this; exact this.1
+        have hD : dir = some (String.ofList sd) := by rw [hdir, hsd]; rfl
+        simp [hvr, truthy, hD, hrv sd hsdne, Spec.completePrettyName, String.toList_append,
+          featureSuffix_chars, urlText, vcsUrlText, GitParts.text, suffixText, hrev, hsd, hk,
+          String.toList_ofList]
+    | some rv =>
+      have hrvne : rv ≠ [] := by have := hg.rev; rw [hrev] at this; exact this.1
+      have hR : pyOr (pyOr b t) r = some (String.ofList rv) := by rw [href, hrev]; rfl
+      have hvr : vcsReference b t r = String.ofList rv := by
+        unfold vcsReference; rw [hR]; simp [pyOr, truthy, hrv rv hrvne]
+      cases hsd : g.subdir with
+      | none =>
+        have hD : dir = none := by rw [hdir, hsd]; rfl
+        simp [hvr, truthy, hD, hrv rv hrvne, Spec.completePrettyName, String.toList_append,
+          featureSuffix_chars, urlText, vcsUrlText, GitParts.text, suffixText, hrev, hsd, String.toList_ofList]
+      | some sd =>
+        have hsdne : sd ≠ [] := by have := hg.subdir; rw [hsd] at this; exact this.1
+        have hD : dir = some (String.ofList sd) := by rw [hdir, hsd]; rfl
+        simp [hvr, truthy, hD, hrv rv hrvne, hrv sd hsdne, Spec.completePrettyName,
+          String.toList_append, featureSuffix_chars, urlText, vcsUrlText, GitParts.text, suffixText, hrev, hsd, hk,
+          String.toList_ofList]
+  obtain ⟨s, hb, hchars⟩ := hbase
+  have htp : d.toPep508 = .ok s := by
+    simp [Dep.toPep508, hb, hany, hpy, h.inExtras, joinWith, bind, Except.bind, pure, Except.pure]
+  have hchars' : s.toList = d.spec.prettyName.toList ++ extrasText (d.spec.features.map String.toList) ++
+      urlText (some (vcsUrlText g)) ++ markerText none := by rw [hchars]; simp [markerText]
+  have hr := createFromPep508_vcs s _ _ g u hchars' h.ident
+    (by intro e he; obtain ⟨f, hf, rfl⟩ := List.mem_map.mp he; exact h.featIdent f hf) hg hu (hnc _ htp)
+  rw [String.ofList_toList, map_ofList_toList] at hr
+  obtain ⟨d', hd', a1, a2, a3, a4, a5, a6, a7, a8, a9⟩ :=
+    mkVcsDep_fields d.spec.prettyName g hg none none (g.rev.map String.ofList) (g.subdir.map String.ofList) d.spec.features
+  have hpo : ∀ X : Option String, pyOr (pyOr none none) X = X := by intro X; simp [pyOr, truthy]
+  refine ⟨s, d', htp, by rw [hr]; exact hd', ?_, ?_, ?_, ?_, a9⟩
+  · show d'.spec.name = d.spec.name
+    rw [a1, h.name]
+  · show d'.spec.features = d.spec.features
+    rw [a2, h.feats]
+  · rw [a3, h.kind]; simp only [Kind.textual]; rw [h.href, h.hdir]
+  · have e4 : d'.spec.sourceReference = d.spec.sourceReference := by rw [a7, h.sref, hpo, h.href]
+    have e3 : d'.spec.sourceSubdirectory = d.spec.sourceSubdirectory := by rw [a6, h.ssub, h.hdir]
+    exact ⟨isSameSourceAs_of_fields _ _ (by rw [a4, h.stype]) (by rw [a5, h.surl]) e3 e4 (by rw [a8, h.sres]),
+      isSameSourceAs_of_fields _ _ (by rw [a4, h.stype]) (by rw [a5, h.surl]) e3.symm e4.symm (by rw [a8, h.sres])⟩
+
+/-- non-vacuity: `git+ssh://git@github.com:2222/org/repo.git@v1.0#subdirectory=pkg/core` meets `VcsUrlOK` -/
+private def gEx : GitParts :=
+  ⟨"ssh", some "git".toList, "github.com".toList, some "2222".toList, ["org".toList, "repo.git".toList],
+    some "v1.0".toList, some "pkg/core".toList⟩
+
+example : String.ofList (vcsUrlText gEx) = "git+ssh://git@github.com:2222/org/repo.git@v1.0#subdirectory=pkg/core" := by
+  decide +kernel
+
+example : ∃ u, VcsUrlOK (String.ofList (vcsUrlText gEx)) u :=
+  ⟨_, { split := rfl, gitp := by decide +kernel, notFile := by decide +kernel, nopct := by decide +kernel,
+        notWheel := by decide +kernel, check := by decide +kernel,
+        uri := ⟨⟨'g', "it+ssh://git@github.com:2222/org/repo.git@v1.0#subdirectory=pkg/core".toList, by decide +kernel, by decide⟩, by decide +kernel⟩, noUnc := by decide +kernel,
+        last := ⟨"git+ssh://git@github.com:2222/org/repo.git@v1.0#subdirectory=pkg/cor".toList, 'e', by decide +kernel, by decide⟩ }⟩
 
 /-! ## where the code itself breaks the round trip -/
 
